@@ -1,6 +1,330 @@
-import Asts.Spec.World
+import Asts.Proofs.C02_Target
+import Asts.Proofs.C02_Round
+import Asts.Proofs.C02_Idem
+import Asts.Proofs.C02_Policies
 
-/-! # C02 — property theorems (under construction) -/
+/-! # C02 — reconciliation converges to exactly the desired pods and then goes quiet
+
+Model: `syncF` (`Model/Sync.lean`, one whole `sync` + `UpdateStatefulSet`), `settle`, `applySync`, `round` (`Model/World.lean`).
+Spec: `wfWorld`, `finalState`, `silentOk` (`Spec/World.lean`). Lemmas: `Asts/Proofs/C02_*.lean` (namespace `Asts.C02p`).
+
+## Part 1 — quiescence (this file, fully proved, for EVERY hashing function, store, pod list; no size bound)
+
+`Final h i` (`finalB` in `Proofs/C02_Defs.lean`, a decidable predicate) says of a world `i`:
+* spec: not paused, selector parses, not being deleted, `replicas` present and `≥ 0`, strategy RollingUpdate or OnDelete,
+  history limit present and `≥ 0`;
+* pods: every pod owned by the set matches the selector, is a member, carries the canonical name of its ordinal, its ordinal
+  is desired, it is Running ∧ Ready ∧ not terminating, identity and storage match, and — under RollingUpdate, at or above
+  the partition — it is at `status.updateRevision`; every desired ordinal is held by an owned pod and there are exactly
+  `|desired|` owned pods; no orphan pod is adoptable (an orphan fails the selector / is no member / is terminating);
+* revisions: the newest listed revision (after `SortControllerRevisions`) is named `status.updateRevision` and `EqualRevision`
+  to the revision built from the template (this is where the hashing enters); `status.currentRevision` names a listed
+  revision; no listed revision is an orphan; the listed owned revisions not named by the status or by a pod are within the
+  history limit;
+* status: the cached status equals the census of the owned pods after the completion rule (`observedGeneration` may be ahead).
+
+Hypotheses the theorems do NOT need: nothing on `fresh` (the uncached GET is never made), on `view.stCurrentReplicas` (no pod is
+created), on pod ids or list order, on pods owned by somebody else. -/
 namespace Asts.C02
+open Asts Asts.C02p
+
+/-- the quiescent state (see the header for its reading) -/
+abbrev Final (h : Hashing) (i : SyncIn) : Prop := Asts.C02p.Final h i
+
+/-- **Quiescence.** In a `Final` world a reconcile issues no write at all (its whole call log is four `list:revs`) and returns
+    success — for every hashing function. -/
+theorem C02_quiescent (h : Hashing) (i : SyncIn) (hf : Final h i) :
+    (syncF h i []).log.filter isWrite = [] ∧ (syncF h i []).outcome = .ok :=
+  final_quiet hf
+
+/-- The same with the whole output spelled out: the log, no status write, the store untouched, no pod action. -/
+theorem C02_quiescent_output (h : Hashing) (i : SyncIn) (hf : Final h i) :
+    syncF h i [] = { log := ["list:revs", "list:revs", "list:revs", "list:revs"], status := none, cc := none, store := i.store,
+                     cur := i.stored.currentRev, upd := i.stored.updateRev, claimed := ownPods i, acts := [], actsDone := 0,
+                     outcome := .ok } :=
+  syncF_final h i hf
+
+/-- `Final` is the state the property promises: `finalState` of `Spec/World.lean` (own pods = the desired ordinals by canonical
+    name, each healthy with its identity, at the update revision where RollingUpdate reaches; `status.replicas =
+    status.readyReplicas = spec.replicas`). -/
+theorem C02_final_is_target (h : Hashing) (i : SyncIn) (hf : Final h i) (out : String) (w : Nat) (revs : List Rev) :
+    finalState i { out := out, writes := w, pods := i.pods, revs := revs, status := i.stored } = true :=
+  final_finalState hf out w revs
+
+/-- `status.replicas = status.readyReplicas = spec.replicas`, spelled out. -/
+theorem C02_final_counts (h : Hashing) (i : SyncIn) (hf : Final h i) :
+    i.stored.replicas = replicasOf i.view ∧ i.stored.ready = replicasOf i.view :=
+  final_counts hf
+
+/-- `Final` survives the fairness step (caches catch up, pods become ready). -/
+theorem C02_final_settle (h : Hashing) (i : SyncIn) (hf : Final h i) : Final h (settle i) :=
+  final_settle h i hf
+
+/-- **Stability.** A round (settle; sync; apply the writes) from a `Final` world ends in a `Final` world. -/
+theorem C02_final_stable (h : Hashing) (i : SyncIn) (hf : Final h i) : Final h (round h i []).1 :=
+  final_round h i hf
+
+/-- The observation of such a round is what the monitor `C02quiet` looks for: silent, successful, in the target state. -/
+theorem C02_final_round_observed (h : Hashing) (i : SyncIn) (hf : Final h i) :
+    silentOk (round h i []).2 = true ∧ finalState i (round h i []).2 = true :=
+  final_round_obs hf
+
+/-- **From then on a reconcile issues no write at all**: after any number of further rounds the world is still `Final`, and
+    the next round is silent, successful and in the target state. -/
+theorem C02_quiet_forever (h : Hashing) (i : SyncIn) (hf : Final h i) (n : Nat) :
+    Final h (roundsN h n i) ∧ silentOk (round h (roundsN h n i) []).2 = true ∧
+    finalState (roundsN h n i) (round h (roundsN h n i) []).2 = true :=
+  ⟨final_roundsN hf n, final_round_obs (final_roundsN hf n)⟩
+
+/-! ### non-vacuity: three replicas with slot 1 (desired 0,2,3), partition 2, two revisions, a foreign pod -/
+
+def exH : Hashing := { nameOf := fun d c => d ++ "-" ++ toString c, hashNumOf := fun _ _ => none }
+
+def exPod (k : Nat) (o : Int) (rev : String) : CPod :=
+  { name := canonicalName "web" o, owner := .self, selMatch := true, member := true,
+    pod := { id := k, ord := o, phase := .running, ready := true, terminating := false, rev := rev, idOk := true, stOk := true } }
+
+def exWorld : SyncIn :=
+  { setName := "web", paused := false, selectorOk := true,
+    view := { replicas := some 3, slots := [1], parallel := true, strat := .rolling, ru := some (some 2), deleting := false,
+              generation := 4, stCurrentReplicas := 1 },
+    stored := { replicas := 3, ready := 3, current := 1, updated := 2, currentRev := "web-a", updateRev := "web-b", observedGen := 4 },
+    collisionCount := none, historyLimit := some 1, template := "B",
+    fresh := { gone := false, uidOk := true, deleting := false },
+    store := [ { name := "web-a", number := 1, ctime := 0, data := "A", hashNum := none, owner := .self, selMatch := true, marker := false },
+               { name := "web-b", number := 2, ctime := 0, data := "B", hashNum := none, owner := .self, selMatch := true, marker := false } ],
+    pods := [ exPod 0 0 "web-a", exPod 1 2 "web-b", exPod 2 3 "web-b",
+              { name := "other", owner := .other, selMatch := true, member := false,
+                pod := { id := 3, ord := -1, phase := .pending, ready := false, terminating := false, rev := "", idOk := true, stOk := true } } ] }
+
+example : Final exH exWorld := by decide +kernel
+
+/-- `Final` is not implied by the target state alone: the same pods with a stale `status.updatedReplicas` are in
+    `finalState` but the reconcile writes the status -/
+example : Final exH { exWorld with stored := { exWorld.stored with updated := 1 } } = False := by
+  simp only [eq_iff_iff, iff_false]; decide +kernel
+
+/-! ## Part 2 — the premises are invariant (progress lemmas (a) and (b); all worlds, no size bound, ANY fault plan)
+
+`settle` is the fairness step; `round h i plan` is `settle; sync (with the fault plan); apply the writes that took effect`.
+The state right after a round is not inside `wfWorld` (a pod created in the round has no phase yet), the state after the next
+fairness step is. The revision clause of `wfWorld` looks at the next eight probe names only and is NOT inductive (the collision
+count can move past them: `wf_probe_clause_not_inductive` below); `RevProbeFree` is its inductive form (no revision that the
+listing cannot see sits on ANY later probe name; trivially true when every stored revision is listed). -/
+
+/-- no revision that `ListRevisions` cannot see sits on a name `createControllerRevision` may still probe -/
+abbrev RevProbeFree (h : Hashing) (i : SyncIn) : Prop := Asts.C02p.RevProbeFree h i
+
+/-- (a) the fairness step keeps a world inside the premises. -/
+theorem C02_settle_wf (h : Hashing) (i : SyncIn) (hw : wfWorld h i = true) : wfWorld h (settle i) = true :=
+  wfWorld_settle h i hw
+
+/-- (a) the fairness step is idempotent — when no two pod objects share a name (object names are unique in a namespace;
+    the insertion sort of `settle` reverses the order of equal names, see the `example` below). -/
+theorem C02_settle_idempotent (i : SyncIn) (hn : (i.pods.map (·.name)).Nodup) : settle (settle i) = settle i :=
+  settle_idem i hn
+
+/-- (b) **a round keeps a world inside the premises — whatever the fault plan** (this is also the "partial work is
+    harmless" half of C09: after a reconcile that was cut short by any failing call, the world, once settled, is again a
+    world C02 speaks about). -/
+theorem C02_round_wf (h : Hashing) (i : SyncIn) (plan : List Fault) (hw : wfWorld h i = true) (hp : RevProbeFree h i) :
+    wfWorld h (settle (round h i plan).1) = true ∧ RevProbeFree h (settle (round h i plan).1) :=
+  wf_round h i plan hw hp
+
+/-- `RevProbeFree` holds when every stored revision is visible to the listing. -/
+theorem C02_probeFree_of_visible (h : Hashing) (i : SyncIn)
+    (hv : ∀ r ∈ i.store, r.owner ≠ .other ∧ (r.selMatch = true ∨ r.marker = true)) : RevProbeFree h i := by
+  intro r hr
+  left
+  obtain ⟨h1, h2⟩ := hv r hr
+  unfold visB
+  simp only [Bool.and_eq_true, bne_iff_ne, ne_eq, Bool.or_eq_true]
+  exact ⟨h1, h2⟩
+
+/-- structure of a sync under any fault plan: every action comes from `updateStatefulSet` on this set's view, invisible
+    revisions are never created or renamed, and a written status carries a collision count that did not go down -/
+theorem C02_sync_structure (h : Hashing) (i : SyncIn) (plan : List Fault) :
+    (∀ a ∈ (syncF h i plan).acts, ∃ cur upd pods f, a ∈ (updateStatefulSet i.view cur upd pods f).1.acts) ∧
+    StoreLe i.store (syncF h i plan).store ∧
+    ((syncF h i plan).status.isSome = true → ∃ c, (syncF h i plan).cc = some c ∧ i.collisionCount.getD 0 ≤ c) :=
+  ⟨(syncF_ok h i plan).acts, (syncF_ok h i plan).store, (syncF_ok h i plan).cc⟩
+
+/-! ### findings recorded as checked examples -/
+
+private def dupPod (k : Nat) (rev : String) : CPod :=
+  { name := "web-0", owner := .self, selMatch := true, member := true,
+    pod := { id := k, ord := 0, phase := .running, ready := true, terminating := false, rev := rev, idOk := true, stOk := true } }
+
+/-- two pods with one name: `settle` is not idempotent (the hypothesis of `C02_settle_idempotent` is needed) -/
+theorem settle_not_idempotent_with_duplicate_names :
+    (settle (settle { exWorld with pods := [dupPod 0 "a", dupPod 1 "b"] })).pods ≠
+      (settle { exWorld with pods := [dupPod 0 "a", dupPod 1 "b"] }).pods := by decide +kernel
+
+private def cxH : Hashing := { nameOf := fun _ c => "n" ++ toString c, hashNumOf := fun _ _ => none }
+private def cxVis (k : Nat) : Rev :=
+  { name := "n" ++ toString k, number := k + 1, ctime := 0, data := "X" ++ toString k, hashNum := none, owner := .self,
+    selMatch := true, marker := false }
+private def cxWorld : SyncIn :=
+  { setName := "web", paused := false, selectorOk := true,
+    view := { replicas := some 0, slots := [], parallel := true, strat := .rolling, ru := some (some 0), deleting := false,
+              generation := 1, stCurrentReplicas := 0 },
+    stored := {}, collisionCount := none, historyLimit := some 10, template := "T",
+    fresh := { gone := false, uidOk := true, deleting := false },
+    store := [cxVis 0, cxVis 1, cxVis 2, cxVis 3, cxVis 4, cxVis 5,
+              { name := "n9", number := 1, ctime := 0, data := "Z", hashNum := none, owner := .other, selMatch := true, marker := false }],
+    pods := [] }
+
+/-- **the eight-probe clause of `wfWorld` is not inductive**: six listed revisions occupy the probe names 0..5, a foreign
+    revision sits on probe name 9; the world is inside the premises, the round creates the revision at collision count 6
+    (and converges), and the settled result is outside `wfWorld` because probe name 9 is now among the next eight. -/
+theorem wf_probe_clause_not_inductive :
+    wfWorld cxH cxWorld = true ∧ wfWorld cxH (settle (round cxH cxWorld []).1) = false := by decide +kernel
+
+private def cyH : Hashing := { nameOf := fun _ _ => "x", hashNumOf := fun _ _ => none }
+private def cyWorld : SyncIn :=
+  { cxWorld with store := [{ name := "x", number := 1, ctime := 0, data := "Z", hashNum := some 5, owner := .self,
+                             selMatch := true, marker := false }] }
+
+/-- **convergence needs a premise on the hashing that `wfWorld` does not state**: with a hash function whose probe names all
+    coincide with a listed revision recording other data, the sync of a world inside `wfWorld` ends in error (the model gives
+    up after `|store| + 8` probes; the Go loop never ends) and leaves the store, the status and the collision count as they were, with no pod and no pod action — so every later
+    round does the same and the run never converges (`C02converges` evaluates to false on it). The real hash (FNV of
+    template and collision count) makes the probe names differ. -/
+theorem degenerate_hashing_never_converges :
+    wfWorld cyH cyWorld = true ∧ (syncF cyH (settle cyWorld) []).outcome = .err ∧
+    (settle (round cyH cyWorld []).1).store = (settle cyWorld).store ∧
+    (settle (round cyH cyWorld []).1).stored = (settle cyWorld).stored ∧
+    (settle (round cyH cyWorld []).1).collisionCount = (settle cyWorld).collisionCount ∧
+    (syncF cyH (settle cyWorld) []).acts = [] ∧ cyWorld.pods = [] := by decide +kernel
+
+/-! ## Part 3 — convergence under both pod management policies (progress lemmas (c), (d) and the bound), for "normal" worlds
+
+A world is **normal** (`NormC h i`, decidable reading `normCB`) when: the spec is valid (as in `Final`), the strategy is
+OnDelete or the `rollingUpdate` block with a partition `≥ 0` is present (the legacy boundary mode is excluded), every pod
+object in the list belongs to the set (owned, member, selector, canonical name, `0 ≤ ordinal < MaxInt32`, storage matches,
+admitted), ordinals are pairwise distinct, the revisions are quiet (the newest listed revision records the template with a
+compatible hash label; no listed revision is an orphan), sizes are within the model's id scheme (`|pods|, replicas ≤ freshId
+= 10^6`, `replicas + |slots| ≤ MaxInt32`; `roomB`: extra pods + replicas `≤ freshId`) and the uncached GET finds the set.
+Pods may be missing, Failed/Succeeded, unready, terminating, outdated, lacking identity, extra (outside the desired set), in
+any number; the revision history may be of any length (truncation is part of the proof). Under OrderedReady (`normOB`) no
+Failed/Succeeded pod lies outside the desired set (the exclusion the property itself makes). This is the state the worlds
+of the `world` engine are in after their first rounds (adoption, creation of the update revision): 77% of the generated
+worlds inside `wfWorld`; the rest are the legacy boundary mode (22%) and worlds with pods the set cannot claim (1%).
+
+`muPods` is the measure of DESIGN §6 (pods part): per desired ordinal 1 for a vacancy, 2 for a Failed/Succeeded pod, 3 for a
+pod RollingUpdate still has to replace, +1 for a missing identity, +1 while terminating; plus 2 per pod outside the desired
+set. `nextW h j = settle (one round from j)`. The proof is policy-independent above an interface (`ActFacts`: what a
+reconcile may delete and create; `Event`: a create, a delete of a listed pod, or a useful identity update) that both policies
+are shown to satisfy (`par_class`, `mono_class`). -/
+
+/-- the decidable readings put the settled world in the policy's class -/
+theorem C02_parallel_class_of_normB (h : Hashing) (i : SyncIn) (hb : normB h i = true) : ParK h (settle i) := parK_of_normB hb
+theorem C02_ordered_class_of_normOB (h : Hashing) (i : SyncIn) (hb : normOB h i = true) : MonoK h (settle i) := monoK_of_normOB hb
+
+/-- both policies are policy classes: closed under rounds, the reconcile ends `.ok` with calls satisfying `ActFacts`, and an
+    `Event` happens whenever the pods still need work -/
+theorem C02_policy_class_parallel (h : Hashing) : PolicyClass h (ParK h) := par_class h
+theorem C02_policy_class_ordered (h : Hashing) : PolicyClass h (MonoK h) := mono_class h
+
+/-- **(c) one round** from a normal, settled world, given the policy interface: the sync succeeds, the next settled world
+    is again normal and settled, the store only loses unused history beyond the limit, and the pods are, up to order and
+    ids, `rawNext` — the pods no delete hit (identity repaired where an update was issued) plus one new Running/Ready pod
+    per create. -/
+theorem C02_round (h : Hashing) (j : SyncIn) (hs : NSC h j) (hp : Pol hs.norm) :
+    (syncF h j []).outcome = .ok ∧ NSC h (nextW h j) ∧ KeyPerm (nextW h j).pods (rawNext hs.norm) ∧
+    (nextW h j).store = j.store.filter hs.norm.keep :=
+  ⟨(applySync_normC h j hs.norm hp.ok).2, nextW_ns hs hp, nextW_pods hs hp, nextW_store hs hp⟩
+
+/-- (c) Parallel, spelled out: every desired ordinal that was vacant or held a Failed/Succeeded pod gets a create, every pod
+    outside the desired set and every Failed/Succeeded pod in range is deleted, and a live pod in range is deleted only
+    when it is the one pod the update walk takes down (`delHits_iff`, `create_mem_iff` for the exact statements). -/
+theorem C02_round_parallel_calls (h : Hashing) (j : SyncIn) (hs : NSC h j) (hpar : j.view.parallel = true) :
+    hs.norm.recon.1.acts = actsOf j.view hs.norm.curRev.name hs.norm.updRev.name (bOf j) (EOf j) j.pods ∧
+    ActFacts j.view hs.norm.curRev.name hs.norm.updRev.name (bOf j) (EOf j) j.pods
+      (actsOf j.view hs.norm.curRev.name hs.norm.updRev.name (bOf j) (EOf j) j.pods) :=
+  ⟨par_recon_acts hs hpar, par_facts hs⟩
+
+/-- (c) OrderedReady, spelled out: the reconcile issues `monoActsOf` — identity updates up to the first desired ordinal
+    that needs a pod, which it fills (after deleting a Failed/Succeeded occupant) and stops; if none needs one, it deletes
+    the highest pod outside the desired set; if there is none either, the update walk takes one outdated pod down. -/
+theorem C02_round_ordered_calls (h : Hashing) (j : SyncIn) (hk : MonoK h j) :
+    hk.1.norm.recon.2 = .ok ∧
+    hk.1.norm.recon.1.acts = monoActsOf j.view hk.1.norm.curRev.name hk.1.norm.updRev.name (bOf j) (EOf j) j.pods :=
+  recon_mono hk
+
+/-- **(d) the measure**: it never goes up, and it goes down whenever an `Event` happens — which both policies guarantee
+    while the pods still need work (`PolicyClass.progress`). -/
+theorem C02_measure_step (h : Hashing) (j : SyncIn) (hs : NSC h j) (hp : Pol hs.norm) :
+    muPods (nextW h j) ≤ muPods j ∧
+    (Event (bOf j) (EOf j) j.pods hs.norm.recon.1.acts → muPods (nextW h j) < muPods j) :=
+  mu_stepC hs hp
+
+/-- **stage 2**: when the pods need no work, two more rounds end in `Final`: one writes the status if it differs (possibly
+    completing the rolling update), one deletes the history this left unused. -/
+theorem C02_pods_done_final (h : Hashing) (j : SyncIn) (hs : NSC h j) (hz : muPods j = 0) : Final h (nextW h (nextW h j)) :=
+  done_final2 hs hz
+
+/-- **Convergence, Parallel policy, normal worlds.** After at most `muPods (settle i) + 3` rounds the world is `Final` —
+    hence (Part 1) in the promised state, and every later reconcile writes nothing. No bound on replicas, slots, pods or
+    revisions beyond the model's id scheme; any history limit.
+
+    `_partial`: the full statement wanted is `wfWorld h i → (hashing premise) → ∃ n ≤ roundBound i, Final h (roundsN h n i)`.
+    Missing: (i) the normalising first round(s) from an arbitrary `wfWorld` world to a normal one (adoption / release of pods,
+    adoption of revisions, creation or renumbering of the update revision — the last needs a premise on the hashing, see
+    `degenerate_hashing_never_converges`; pods owned by others and non-member pods, which are inert); (ii) the legacy
+    boundary mode `strategy = RollingUpdate` with no `rollingUpdate` block. Both are covered by the `world` engine runs. -/
+theorem C02_rounds_parallel_partial (h : Hashing) (i : SyncIn) (hb : normB h i = true) :
+    ∃ n ≤ muPods (settle i) + 3, Final h (roundsN h n i) :=
+  converge_parallel hb
+
+/-- **Convergence, OrderedReady policy, normal worlds** (one ordinal per round; same measure, same bound).
+    `_partial`: as for Parallel — the normalising first rounds and the legacy boundary mode are missing. -/
+theorem C02_rounds_ordered_partial (h : Hashing) (i : SyncIn) (hb : normOB h i = true) :
+    ∃ n ≤ muPods (settle i) + 3, Final h (roundsN h n i) :=
+  converge_ordered hb
+
+/-- the hypotheses may be checked on the settled world (pods created in the previous round then count as admitted): this
+    is how the `world` engine's worlds qualify from their second round on -/
+theorem C02_rounds_parallel_settled_partial (h : Hashing) (i : SyncIn) (hb : normB h (settle i) = true) :
+    ∃ n ≤ muPods (settle i) + 3, Final h (roundsN h n i) :=
+  converge_of_class (par_class h) (parK_of_normB_settled hb)
+
+theorem C02_rounds_ordered_settled_partial (h : Hashing) (i : SyncIn) (hb : normOB h (settle i) = true) :
+    ∃ n ≤ muPods (settle i) + 3, Final h (roundsN h n i) :=
+  converge_of_class (mono_class h) (monoK_of_normOB_settled hb)
+
+/-- the number of rounds is within what the monitor `C02converges` allows (`roundBound` of `Spec/World.lean`) -/
+theorem C02_bound_within_monitor (i : SyncIn) : muPods (settle i) + 3 ≤ roundBound i := mu_le_roundBound i
+
+/-- the policy-independent form: any world whose settled form lies in a policy class converges -/
+theorem C02_rounds_of_class (h : Hashing) (K : SyncIn → Prop) (hK : PolicyClass h K) (i : SyncIn) (hk : K (settle i)) :
+    ∃ n ≤ muPods (settle i) + 3, Final h (roundsN h n i) :=
+  converge_of_class hK hk
+
+/-! ### non-vacuity: normal worlds that need every kind of work
+
+replicas 3 with slot 1 (desired 0,2,3), partition 0: ordinal 0 outdated and without identity, ordinal 2 Failed, ordinal 3
+vacant, extra pods at 1 (a slot) and 7, a terminating pod at 9; history limit 0 with an unused old revision. -/
+
+private def nPod (k : Nat) (o : Int) (ph : Phase) (rd tm : Bool) (rev : String) (idOk : Bool) : CPod :=
+  { name := canonicalName "web" o, owner := .self, selMatch := true, member := true,
+    pod := { id := k, ord := o, phase := ph, ready := rd, terminating := tm, rev := rev, idOk := idOk, stOk := true } }
+
+def exNormal (par : Bool) : SyncIn :=
+  { exWorld with
+    view := { replicas := some 3, slots := [1], parallel := par, strat := .rolling, ru := some (some 0), deleting := false,
+              generation := 5, stCurrentReplicas := 0 },
+    historyLimit := some 0,
+    store := [ { name := "web-0", number := 0, ctime := 0, data := "Z", hashNum := none, owner := .self, selMatch := true, marker := false },
+               { name := "web-a", number := 1, ctime := 0, data := "A", hashNum := none, owner := .self, selMatch := true, marker := false },
+               { name := "web-b", number := 2, ctime := 0, data := "B", hashNum := none, owner := .self, selMatch := true, marker := false } ],
+    pods := [ nPod 0 0 .running false false "web-a" false, nPod 1 2 .failed false false "web-a" true,
+              nPod 2 1 .pending false false "web-a" true, nPod 3 7 .running false false "web-b" true,
+              nPod 4 9 .running true true "web-a" true ] }
+
+example : normB exH (exNormal true) = true := by decide +kernel
+example : normOB exH (exNormal false) = true := by decide +kernel
+example : muPods (settle (exNormal true)) = 11 := by decide +kernel
+example : Final exH (exNormal true) = False := by simp only [eq_iff_iff, iff_false]; decide +kernel
 
 end Asts.C02
